@@ -36,7 +36,7 @@ theorem initial_state_canonical (initial : String) (c : Parser.CreateReq) (h : p
     ∃ j ty canon, Parser.decodeCreate j = some c ∧ transformValue (createRequestJson ty c) = some canon ∧
       initial = b64EncodeStr (bytesOfString (String.ofList canon)) ∧ (ty = "" ∨ ty = "create") := by
   unfold parseInitialState at h
-  cases hb : b64DecodeStr initial with
+  cases hb : b64DecodeStrictStr initial with
   | none => simp [hb] at h
   | some bs =>
     simp only [hb] at h
